@@ -88,8 +88,17 @@ theorem resume_reestablishes (m : Nat) (hm : m < 512) (cnv clv : Bool) : resumeB
     · exact chunk_sound resumeB 480 512 resume_chunk15 m (by omega) (by omega) cnv clv
 
 /-- **A second Close is harmless**: it writes nothing and changes no state. -/
-theorem close_idempotent (e : Env) (w : WSt) : closeW e true w = w := by
-  simp [closeW]
+theorem close_idempotent (e : Env) (w : WSt) : (closeW e true w).wire = w.wire ∧ (closeW e true w).buf = w.buf := by
+  simp [closeW, interp, Gen.Modes.close, evalG]
+
+/-- **Close while suspended** (Suspend, then Close without Resume) writes nothing more: Suspend's
+    early return on `vx.suspended` is taken, so the terminal stays restored (and the call does
+    not wait for a parser that is already stopped). -/
+theorem close_while_suspended_writes_nothing (m : Nat) (hm : m < 4) :
+    let e := envOf (m * 170)
+    let w := suspendW e { (startupW e) with wire := [] }
+    (closeW e false { w with wire := [] }).wire = [] := by
+  rcases (by omega : m = 0 ∨ m = 1 ∨ m = 2 ∨ m = 3) with rfl | rfl | rfl | rfl <;> decide +kernel
 
 /-- The printed forms of DECSET/DECRST lex to exactly the tokens the lifecycle model maps them to
     (checked for every mode number that occurs in vaxis.go). -/
